@@ -82,6 +82,8 @@ def gen_case(seed, tier):
         name = rng.choice(names)
         size = rng.choice([0, 1, chunk - 1, chunk, chunk + 1, 2 * chunk, 2 * chunk + 1, 3 * chunk - 1, rng.randrange(0, 200)])
         size = max(0, min(size, 300))
+        if chunk == 128000 and rng.random() < 0.15:
+            size = rng.choice([127999, 128000, 128001, 256001])      # around the shipped stream chunk size
         if k < 0.25:
             ops.append({'op': 'upload', 'name': name, 'size': size, 'reader': rng.random() < 0.3})
         elif k < 0.4:
